@@ -1,6 +1,7 @@
 use std::{
     path::{Path, PathBuf},
     env::current_dir, sync::OnceLock, fs::ReadDir,
+    ffi::{OsStr, OsString}, os::unix::ffi::OsStrExt,
 };
 
 use regex::Regex;
@@ -50,11 +51,10 @@ fn ls_file_dir(file: &Path) -> Result<ReadDir> {
     Ok(ls_dir)
 }
 
-fn filename(path: &Path) -> Result<String> {
+fn filename(path: &Path) -> Result<OsString> {
     let fname = path.file_name()
-        .ok_or(XcpError::InvalidArguments(format!("Invalid path found: {:?}", path)))?
-        .to_string_lossy();
-    Ok(fname.to_string())
+        .ok_or(XcpError::InvalidArguments(format!("Invalid path found: {:?}", path)))?;
+    Ok(fname.to_os_string())
 }
 
 fn has_backup(file: &Path) -> Result<bool> {
@@ -77,15 +77,17 @@ fn next_backup_num(file: &Path) -> Result<u64> {
     Ok(current + 1)
 }
 
-fn is_num_backup(base_file: &str, candidate: &Path) -> Option<u64> {
+fn is_num_backup(base_file: impl AsRef<OsStr>, candidate: &Path) -> Option<u64> {
+    // Compare bytes: file names need not be valid UTF-8.
     let cname = candidate
         .file_name()?
-        .to_str()?;
+        .as_bytes();
     // The candidate must be exactly `<base_file>.~N~`; a sibling
     // that merely starts with the same characters is another file.
     let ext = cname
-        .strip_prefix(base_file)?
-        .strip_prefix('.')?;
+        .strip_prefix(base_file.as_ref().as_bytes())?
+        .strip_prefix(b".")?;
+    let ext = std::str::from_utf8(ext).ok()?;
     let num = get_regex()
         .captures(ext)?
         .get(1)?
